@@ -1214,12 +1214,24 @@ fn puback_reason_num(r: PublishAckReason) -> u8 {
     }
 }
 
-fn stable5(p: &Packet, first: u8) -> bool {
-    let codec = Codec::new();
-    match enc5(&codec, Encoded::Packet(p.clone())) {
-        Ok(out) => dec_body5(&out, first) == Ok(p.clone()),
-        Err(_) => false,
-    }
+/// accepted => stable: re-encode the decoded packet and decode again. The packet is re-wrapped in
+/// its (literal) variant first: a `Packet` coming out of a `Result` has a symbolic discriminant for
+/// CBMC, which would expand the encoders of all 14 packet types.
+macro_rules! stable5 {
+    ($r:expr, $variant:path, $first:expr) => {
+        match &$r {
+            Ok($variant(inner)) => {
+                let p2 = $variant(inner.clone());
+                let codec = Codec::new();
+                match enc5(&codec, Encoded::Packet(p2.clone())) {
+                    Ok(out) => assert!(dec_body5(&out, $first) == Ok(p2), "accepted packet is not stable under re-encoding"),
+                    Err(_) => assert!(false, "accepted packet cannot be re-encoded"),
+                }
+            }
+            Ok(_) => assert!(false, "decoder returned a packet of another type"),
+            Err(_) => {}
+        }
+    };
 }
 
 fn spec_puback_reason(b: u8) -> bool {
@@ -1246,11 +1258,11 @@ fn spec_connack_reason(b: u8) -> bool {
 }
 
 macro_rules! bd5_ack {
-    ($name:ident, $first:expr, $reason_ok:ident) => {
+    ($name:ident, $first:expr, $reason_ok:ident, $variant:path, $n:expr, $stab:expr) => {
         vharness! {
             fn $name() unwind(10) {
-                let data: [u8; 8] = vk::any_bytes::<8>();
-                let len = vk::any_len(8);
+                let data: [u8; $n] = vk::any_bytes::<$n>();
+                let len = vk::any_len($n);
                 let d = &data[..len];
                 let r = decode::decode_packet(vk::bytes_of(data, len), $first);
                 // 3.4.2: id; optional reason (absent = 0x00); optional properties (only if a reason is present)
@@ -1264,18 +1276,22 @@ macro_rules! bd5_ack {
                         Err(()) => want_ok = false,
                     }
                 }
-                assert!(r.is_ok() == want_ok);
-                if let Ok(p) = &r {
-                    assert!(stable5(p, $first));
-                    // the decoded VALUE is what the independent reader finds in the same bytes
-                    let (id, rc, ups, rs) = ack_fields(p);
-                    let mut rd = Rd::new(d);
-                    assert!(spec_check_ack(&mut rd, id, rc, ups, rs) && rd.at_end() && !rd.bad, "decoded fields differ from the bytes");
+                if $stab {
+                    stable5!(r, $variant, $first);
+                    vcover!(r.is_ok() && len == $n, "accepted at the length bound");
+                } else {
+                    assert!(r.is_ok() == want_ok);
+                    if let Ok(p) = &r {
+                        // the decoded VALUE is what the independent reader finds in the same bytes
+                        let (id, rc, ups, rs) = ack_fields(p);
+                        let mut rd = Rd::new(d);
+                        assert!(spec_check_ack(&mut rd, id, rc, ups, rs) && rd.at_end() && !rd.bad, "decoded fields differ from the bytes");
+                    }
+                    vcover!(r.is_ok() && len == 2, "short form (id only)");
+                    vcover!(r.is_ok() && len == 3, "id and reason");
+                    vcover!(r.is_ok() && len == $n, "with properties, at the length bound");
+                    vcover!(r.is_err() && len >= 5 && d[4] != 0x1F && d[4] != 0x26, "unknown property rejected");
                 }
-                vcover!(r.is_ok() && len == 2, "short form (id only)");
-                vcover!(r.is_ok() && len == 3, "id and reason");
-                vcover!(r.is_ok() && len == 8, "with properties, at the length bound");
-                vcover!(r.is_err() && len >= 5 && d[4] != 0x1F && d[4] != 0x26, "unknown property rejected");
             }
         }
     };
@@ -1283,26 +1299,42 @@ macro_rules! bd5_ack {
 //@ props: C02
 //@ tier: quick
 //@ functions: v5 decode::decode_packet, PublishAck::decode, ack_props::decode, take_properties, Option<T>::read_value, UserProperty::decode
-//@ bounds: every body of 0..=8 arbitrary bytes
-//@ unwindset: utf8_is_valid=6 spec_utf8=6 slice_eq=6 ack_props::decode=4 spec_walk_props=4 decode_variable_length_cursor=6 encode_opt_props=3 encoded_size_opt_props=3 clone=3 expect_lp=6
+//@ bounds: every body of 0..=7 arbitrary bytes
+//@ unwindset: utf8_is_valid=6 spec_utf8=6 slice_eq=6 ack_props::decode=4 spec_walk_props=4 decode_variable_length_cursor=6 encode_opt_props=3 encoded_size_opt_props=3 clone=3 expect_lp=6 extend_from_slice=7
 //@ mem: 10  timeout: 1500
-//@ desc: v5 PUBACK body: accepted iff non-zero id, known reason code, well-formed property section holding only 0x1F (once) / 0x26, nothing after it; every named malformation is an error; stable
-bd5_ack!(bd5_puback, 0x40, spec_puback_reason);
+//@ desc: v5 PUBACK body: accepted iff non-zero id, known reason code, well-formed property section holding only 0x1F (once) / 0x26, nothing after it; every named malformation is an error; the decoded fields are those an independent reader finds in the same bytes
+bd5_ack!(bd5_puback, 0x40, spec_puback_reason, Packet::PublishAck, 7, false);
+//@ props: C02
+//@ tier: quick
+//@ functions: v5 decode::decode_packet, PublishAck::decode, v5::Codec::encodev, EncodeLtd for PublishAck
+//@ bounds: every body of 0..=7 arbitrary bytes
+//@ unwindset: utf8_is_valid=6 spec_utf8=6 slice_eq=6 ack_props::decode=4 spec_walk_props=4 decode_variable_length_cursor=6 encode_opt_props=3 encoded_size_opt_props=3 clone=3 expect_lp=6 extend_from_slice=7
+//@ mem: 10  timeout: 1500
+//@ desc: v5 PUBACK body: whatever is accepted is stable (re-encode, decode again, equal)
+bd5_ack!(bd5_puback_st, 0x40, spec_puback_reason, Packet::PublishAck, 7, true);
 //@ props: C02
 //@ tier: quick
 //@ functions: v5 decode::decode_packet, PublishAck2::decode, ack_props::decode
-//@ bounds: every body of 0..=8 arbitrary bytes
-//@ unwindset: utf8_is_valid=6 spec_utf8=6 slice_eq=6 ack_props::decode=4 spec_walk_props=4 decode_variable_length_cursor=6 encode_opt_props=3 encoded_size_opt_props=3 clone=3 expect_lp=6
+//@ bounds: every body of 0..=7 arbitrary bytes
+//@ unwindset: utf8_is_valid=6 spec_utf8=6 slice_eq=6 ack_props::decode=4 spec_walk_props=4 decode_variable_length_cursor=6 encode_opt_props=3 encoded_size_opt_props=3 clone=3 expect_lp=6 extend_from_slice=7
 //@ mem: 10  timeout: 1500
 //@ desc: v5 PUBREL body (as bd5_puback; reason codes 0x00 / 0x92)
-bd5_ack!(bd5_pubrel, 0x62, spec_pubrel_reason);
+bd5_ack!(bd5_pubrel, 0x62, spec_pubrel_reason, Packet::PublishRelease, 7, false);
+//@ props: C02
+//@ tier: quick
+//@ functions: v5 decode::decode_packet, PublishAck2::decode, v5::Codec::encodev, EncodeLtd for PublishAck2
+//@ bounds: every body of 0..=7 arbitrary bytes
+//@ unwindset: utf8_is_valid=6 spec_utf8=6 slice_eq=6 ack_props::decode=4 spec_walk_props=4 decode_variable_length_cursor=6 encode_opt_props=3 encoded_size_opt_props=3 clone=3 expect_lp=6 extend_from_slice=7
+//@ mem: 10  timeout: 1500
+//@ desc: v5 PUBREL body: whatever is accepted is stable
+bd5_ack!(bd5_pubrel_st, 0x62, spec_pubrel_reason, Packet::PublishRelease, 7, true);
 
 macro_rules! bd5_suback {
-    ($name:ident, $first:expr, $reason_ok:ident) => {
+    ($name:ident, $first:expr, $reason_ok:ident, $variant:path, $n:expr, $stab:expr) => {
         vharness! {
             fn $name() unwind(9) {
-                let data: [u8; 7] = vk::any_bytes::<7>();
-                let len = vk::any_len(7);
+                let data: [u8; $n] = vk::any_bytes::<$n>();
+                let len = vk::any_len($n);
                 let d = &data[..len];
                 let r = decode::decode_packet(vk::bytes_of(data, len), $first);
                 let mut want_ok = len >= 3 && (d[0] != 0 || d[1] != 0);
@@ -1318,13 +1350,15 @@ macro_rules! bd5_suback {
                         Err(()) => want_ok = false,
                     }
                 }
-                assert!(r.is_ok() == want_ok);
-                if let Ok(p) = &r {
-                    assert!(stable5(p, $first));
+                if $stab {
+                    stable5!(r, $variant, $first);
+                    vcover!(r.is_ok() && len == $n, "accepted at the length bound");
+                } else {
+                    assert!(r.is_ok() == want_ok);
+                    vcover!(r.is_ok() && len == $n && d[2] == 0, "maximum number of reason codes");
+                    vcover!(r.is_ok() && d[2] != 0, "with a property");
+                    vcover!(r.is_err() && len == $n && d[2] == 0, "unknown reason code rejected");
                 }
-                vcover!(r.is_ok() && len == 7 && d[2] == 0, "four reason codes");
-                vcover!(r.is_ok() && d[2] != 0, "with a property");
-                vcover!(r.is_err() && len == 7 && d[2] == 0, "unknown reason code rejected");
             }
         }
     };
@@ -1333,25 +1367,41 @@ macro_rules! bd5_suback {
 //@ tier: quick
 //@ functions: v5 decode::decode_packet, SubscribeAck::decode, ack_props::decode
 //@ bounds: every body of 0..=7 arbitrary bytes (at most 4 reason codes: capacity of the list model)
-//@ unwindset: utf8_is_valid=6 spec_utf8=6 slice_eq=6 ack_props::decode=4 spec_walk_props=4 decode_variable_length_cursor=6 encode_opt_props=3 encoded_size_opt_props=3 clone=5 SubscribeAck=6 expect_lp=6
+//@ unwindset: utf8_is_valid=6 spec_utf8=6 slice_eq=6 ack_props::decode=4 spec_walk_props=4 decode_variable_length_cursor=6 encode_opt_props=3 encoded_size_opt_props=3 clone=3 expect_lp=6 extend_from_slice=7 SubscribeAck=6 UnsubscribeAck=6
 //@ mem: 10  timeout: 1500
-//@ desc: v5 SUBACK body: accepted iff non-zero id, well-formed property section (0x1F once / 0x26), every reason code from spec table 3.9.3; stable
-bd5_suback!(bd5_suback, 0x90, spec_suback_reason);
+//@ desc: v5 SUBACK body: accepted iff non-zero id, well-formed property section (0x1F once / 0x26), every reason code from spec table 3.9.3
+bd5_suback!(bd5_suback, 0x90, spec_suback_reason, Packet::SubscribeAck, 7, false);
+//@ props: C02
+//@ tier: quick
+//@ functions: v5 decode::decode_packet, SubscribeAck::decode, v5::Codec::encodev, EncodeLtd for SubscribeAck
+//@ bounds: every body of 0..=6 arbitrary bytes
+//@ unwindset: utf8_is_valid=6 spec_utf8=6 slice_eq=6 ack_props::decode=4 spec_walk_props=4 decode_variable_length_cursor=6 encode_opt_props=3 encoded_size_opt_props=3 clone=3 expect_lp=6 extend_from_slice=7 SubscribeAck=6 UnsubscribeAck=6
+//@ mem: 10  timeout: 1500
+//@ desc: v5 SUBACK body: whatever is accepted is stable
+bd5_suback!(bd5_suback_st, 0x90, spec_suback_reason, Packet::SubscribeAck, 6, true);
 //@ props: C02
 //@ tier: quick
 //@ functions: v5 decode::decode_packet, UnsubscribeAck::decode, ack_props::decode
 //@ bounds: every body of 0..=7 arbitrary bytes
-//@ unwindset: utf8_is_valid=6 spec_utf8=6 slice_eq=6 ack_props::decode=4 spec_walk_props=4 decode_variable_length_cursor=6 encode_opt_props=3 encoded_size_opt_props=3 clone=5 UnsubscribeAck=6 expect_lp=6
+//@ unwindset: utf8_is_valid=6 spec_utf8=6 slice_eq=6 ack_props::decode=4 spec_walk_props=4 decode_variable_length_cursor=6 encode_opt_props=3 encoded_size_opt_props=3 clone=3 expect_lp=6 extend_from_slice=7 SubscribeAck=6 UnsubscribeAck=6
 //@ mem: 10  timeout: 1500
 //@ desc: v5 UNSUBACK body (as bd5_suback; reason codes from spec table 3.11.3)
-bd5_suback!(bd5_unsuback, 0xB0, spec_unsuback_reason);
+bd5_suback!(bd5_unsuback, 0xB0, spec_unsuback_reason, Packet::UnsubscribeAck, 7, false);
+//@ props: C02
+//@ tier: quick
+//@ functions: v5 decode::decode_packet, UnsubscribeAck::decode, v5::Codec::encodev
+//@ bounds: every body of 0..=6 arbitrary bytes
+//@ unwindset: utf8_is_valid=6 spec_utf8=6 slice_eq=6 ack_props::decode=4 spec_walk_props=4 decode_variable_length_cursor=6 encode_opt_props=3 encoded_size_opt_props=3 clone=3 expect_lp=6 extend_from_slice=7 SubscribeAck=6 UnsubscribeAck=6
+//@ mem: 10  timeout: 1500
+//@ desc: v5 UNSUBACK body: whatever is accepted is stable
+bd5_suback!(bd5_unsuback_st, 0xB0, spec_unsuback_reason, Packet::UnsubscribeAck, 6, true);
 
 macro_rules! bd5_reason_props {
-    ($name:ident, $first:expr, $reason_ok:ident, $allowed:expr) => {
+    ($name:ident, $first:expr, $reason_ok:ident, $allowed:expr, $variant:path, $n:expr, $stab:expr) => {
         vharness! {
             fn $name() unwind(11) {
-                let data: [u8; 9] = vk::any_bytes::<9>();
-                let len = vk::any_len(9);
+                let data: [u8; $n] = vk::any_bytes::<$n>();
+                let len = vk::any_len($n);
                 let d = &data[..len];
                 let r = decode::decode_packet(vk::bytes_of(data, len), $first);
                 // 3.14.2 / 3.15.2: empty body = reason 0x00, no properties; reason alone; reason + properties
@@ -1365,13 +1415,15 @@ macro_rules! bd5_reason_props {
                         Err(()) => want_ok = false,
                     }
                 }
-                assert!(r.is_ok() == want_ok);
-                if let Ok(p) = &r {
-                    assert!(stable5(p, $first));
+                if $stab {
+                    stable5!(r, $variant, $first);
+                    vcover!(r.is_ok() && len == $n, "accepted at the length bound");
+                } else {
+                    assert!(r.is_ok() == want_ok);
+                    vcover!(r.is_ok() && len == 0, "empty body");
+                    vcover!(r.is_ok() && len == $n, "properties at the length bound");
+                    vcover!(r.is_err() && len >= 1 && $reason_ok(d[0]), "malformed properties rejected");
                 }
-                vcover!(r.is_ok() && len == 0, "empty body");
-                vcover!(r.is_ok() && len == 9, "properties at the length bound");
-                vcover!(r.is_err() && len >= 1 && $reason_ok(d[0]), "malformed properties rejected");
             }
         }
     };
@@ -1379,19 +1431,35 @@ macro_rules! bd5_reason_props {
 //@ props: C02 C15
 //@ tier: quick
 //@ functions: v5 decode::decode_packet, Disconnect::decode, take_properties, Option<T>::read_value
-//@ bounds: every body of 0..=9 arbitrary bytes
-//@ unwindset: utf8_is_valid=7 spec_utf8=7 slice_eq=7 Disconnect=5 spec_walk_props=5 decode_variable_length_cursor=6 encode_opt_props=3 encoded_size_opt_props=3 clone=3 expect_lp=7
+//@ bounds: every body of 0..=8 arbitrary bytes
+//@ unwindset: utf8_is_valid=7 spec_utf8=7 slice_eq=7 Disconnect=5 Auth=5 spec_walk_props=5 decode_variable_length_cursor=6 encode_opt_props=3 encoded_size_opt_props=3 clone=3 expect_lp=7 extend_from_slice=8
 //@ mem: 10  timeout: 1500
-//@ desc: v5 DISCONNECT body: accepted iff known reason code and a well-formed property section holding only 0x11 0x1C 0x1F (each once) / 0x26, nothing after it; stable. Recorded leniency: reason 0x8C is accepted although 3.14.2.1 does not list it
-bd5_reason_props!(bd5_disconnect, 0xE0, spec_disconnect_reason, P_DISCONNECT);
+//@ desc: v5 DISCONNECT body: accepted iff known reason code and a well-formed property section holding only 0x11 0x1C 0x1F (each once) / 0x26, nothing after it. Recorded leniency: reason 0x8C is accepted although 3.14.2.1 does not list it
+bd5_reason_props!(bd5_disconnect, 0xE0, spec_disconnect_reason, P_DISCONNECT, Packet::Disconnect, 8, false);
+//@ props: C02
+//@ tier: quick
+//@ functions: v5 decode::decode_packet, Disconnect::decode, v5::Codec::encodev, EncodeLtd for Disconnect
+//@ bounds: every body of 0..=7 arbitrary bytes
+//@ unwindset: utf8_is_valid=7 spec_utf8=7 slice_eq=7 Disconnect=5 Auth=5 spec_walk_props=5 decode_variable_length_cursor=6 encode_opt_props=3 encoded_size_opt_props=3 clone=3 expect_lp=7 extend_from_slice=8
+//@ mem: 10  timeout: 1500
+//@ desc: v5 DISCONNECT body: whatever is accepted is stable
+bd5_reason_props!(bd5_disconnect_st, 0xE0, spec_disconnect_reason, P_DISCONNECT, Packet::Disconnect, 7, true);
 //@ props: C02
 //@ tier: quick
 //@ functions: v5 decode::decode_packet, Auth::decode
-//@ bounds: every body of 0..=9 arbitrary bytes
-//@ unwindset: utf8_is_valid=7 spec_utf8=7 slice_eq=7 Auth=5 spec_walk_props=5 decode_variable_length_cursor=6 encode_opt_props=3 encoded_size_opt_props=3 clone=3 expect_lp=7
+//@ bounds: every body of 0..=8 arbitrary bytes
+//@ unwindset: utf8_is_valid=7 spec_utf8=7 slice_eq=7 Disconnect=5 Auth=5 spec_walk_props=5 decode_variable_length_cursor=6 encode_opt_props=3 encoded_size_opt_props=3 clone=3 expect_lp=7 extend_from_slice=8
 //@ mem: 10  timeout: 1500
-//@ desc: v5 AUTH body: accepted iff reason in {0x00,0x18,0x19} and a well-formed property section holding only 0x15 0x16 0x1F (each once) / 0x26; stable
-bd5_reason_props!(bd5_auth, 0xF0, spec_auth_reason, P_AUTH);
+//@ desc: v5 AUTH body: accepted iff reason in {0x00,0x18,0x19} and a well-formed property section holding only 0x15 0x16 0x1F (each once) / 0x26
+bd5_reason_props!(bd5_auth, 0xF0, spec_auth_reason, P_AUTH, Packet::Auth, 8, false);
+//@ props: C02
+//@ tier: quick
+//@ functions: v5 decode::decode_packet, Auth::decode, v5::Codec::encodev, EncodeLtd for Auth
+//@ bounds: every body of 0..=7 arbitrary bytes
+//@ unwindset: utf8_is_valid=7 spec_utf8=7 slice_eq=7 Disconnect=5 Auth=5 spec_walk_props=5 decode_variable_length_cursor=6 encode_opt_props=3 encoded_size_opt_props=3 clone=3 expect_lp=7 extend_from_slice=8
+//@ mem: 10  timeout: 1500
+//@ desc: v5 AUTH body: whatever is accepted is stable
+bd5_reason_props!(bd5_auth_st, 0xF0, spec_auth_reason, P_AUTH, Packet::Auth, 7, true);
 
 vharness! {
     //@ props: C02
@@ -1421,7 +1489,7 @@ vharness! {
     //@ bounds: every body of 0..=9 arbitrary bytes
     //@ unwindset: utf8_is_valid=7 spec_utf8=7 slice_eq=7 Subscribe=5 spec_walk_props=5 decode_variable_length_cursor=6 clone=4 expect_lp=7
     //@ mem: 10  timeout: 1500
-    //@ desc: v5 SUBSCRIBE body: zero id, malformed / unknown / repeated properties (0x0B once, 0x26), subscription identifier 0, truncated filters, invalid UTF-8, QoS 3 and retain-handling 3 are errors; accepted otherwise (reserved option bits 6-7 are ignored: leniency); stable
+    //@ desc: v5 SUBSCRIBE body: zero id, malformed / unknown / repeated properties (0x0B once, 0x26), subscription identifier 0, truncated filters, invalid UTF-8, QoS 3 and retain-handling 3 are errors; accepted otherwise (reserved option bits 6-7 are ignored: leniency)
     fn bd5_subscribe() unwind(11) {
         let data: [u8; 9] = vk::any_bytes::<9>();
         let len = vk::any_len(9);
@@ -1469,9 +1537,6 @@ vharness! {
             }
         }
         assert!(r.is_ok() == want_ok);
-        if let Ok(p) = &r {
-            assert!(stable5(p, 0x82));
-        }
         vcover!(r.is_ok() && len == 9, "accepted at the length bound");
         vcover!(r.is_ok() && len > 3 && d[2] >= 2 && d[3] == 0x0B, "with a subscription identifier");
         vcover!(r.is_err() && len > 3, "rejected");
@@ -1485,7 +1550,7 @@ vharness! {
     //@ bounds: every body of 0..=8 arbitrary bytes
     //@ unwindset: utf8_is_valid=6 spec_utf8=6 slice_eq=6 Unsubscribe=5 spec_walk_props=5 decode_variable_length_cursor=6 clone=4 expect_lp=6
     //@ mem: 10  timeout: 1500
-    //@ desc: v5 UNSUBSCRIBE body: accepted iff non-zero id, property section holding only 0x26, every filter a complete well-formed UTF-8 string; stable
+    //@ desc: v5 UNSUBSCRIBE body: accepted iff non-zero id, property section holding only 0x26, every filter a complete well-formed UTF-8 string
     fn bd5_unsubscribe() unwind(10) {
         let data: [u8; 8] = vk::any_bytes::<8>();
         let len = vk::any_len(8);
@@ -1509,9 +1574,6 @@ vharness! {
             }
         }
         assert!(r.is_ok() == want_ok);
-        if let Ok(p) = &r {
-            assert!(stable5(p, 0xA2));
-        }
         vcover!(r.is_ok() && len == 8, "accepted at the length bound");
         vcover!(r.is_err() && len > 3, "rejected");
     }
@@ -1524,7 +1586,7 @@ vharness! {
     //@ bounds: every body of 0..=9 arbitrary bytes
     //@ unwindset: utf8_is_valid=6 spec_utf8=6 slice_eq=6 ConnectAck=6 spec_walk_props=6 decode_variable_length_cursor=6 encode_opt_props=3 encoded_size_opt_props=3 clone=3 expect_lp=6 spec_check_connack_props=8
     //@ mem: 12  timeout: 1800
-    //@ desc: v5 CONNACK body: reserved acknowledge flags, unknown reason code, any named property malformation (unknown id, repeated once-only id, value not fitting, invalid UTF-8, length beyond the frame) and trailing bytes are errors; whatever is accepted is stable
+    //@ desc: v5 CONNACK body: reserved acknowledge flags, unknown reason code, any named property malformation (unknown id, repeated once-only id, value not fitting, invalid UTF-8, length beyond the frame) and trailing bytes are errors
     fn bd5_connack() unwind(11) {
         let data: [u8; 9] = vk::any_bytes::<9>();
         let len = vk::any_len(9);
@@ -1539,9 +1601,6 @@ vharness! {
         }
         if named_bad {
             assert!(r.is_err());
-        }
-        if let Ok(p) = &r {
-            assert!(stable5(p, 0x20));
         }
         vcover!(r.is_ok() && len == 9, "accepted at the length bound");
         vcover!(r.is_err() && !named_bad, "rejected for a property VALUE (e.g. receive maximum 0, flag byte > 1)");
